@@ -199,6 +199,19 @@ AMB = {'on': False, 'n': 0, 'current': None, 'force': None, 'period': 5,
        'ctxs': [(n, _decimal.Context(**kw)) for n, kw in HOSTILE]}
 
 
+def _load_pinned():
+    import json
+    import os
+    try:
+        with open(os.path.join(os.path.dirname(os.path.dirname(os.path.abspath(__file__))), 'api_signatures.json')) as f:
+            return json.load(f)
+    except Exception:
+        return {}
+
+
+PINNED_API = _load_pinned()
+
+
 def hostile_context(n):
     """(name, Context) for the n-th monitored call, or None (4 of 5 calls keep the default context)"""
     if AMB['force'] is not None:
@@ -289,8 +302,20 @@ def monitor(owner, name, on_event, rebind_aliases=True, pure=True):
     except (TypeError, ValueError):
         pnames = None
 
+    pinned = PINNED_API.get('%s.%s' % (getattr(owner, '__name__', owner), name))
+
     def by_keyword(a, k):
         n = AMB['n']
+        if n % 7 == 6 and pinned and k and AMB['on'] and len(a) < len(pinned):
+            # the other way round: keyword arguments handed over positionally, in the order of the PINNED signature (a caller
+            # written against the published API; api_signatures.json) - when they fill the next slots without a gap
+            nxt = pinned[len(a):len(a) + len(k)]
+            if set(nxt) == set(k):
+                ctx = DET['ctx']
+                if ctx is not None:
+                    ctx.counters['ambient.calls-with-keyword-arguments-passed-positionally'] += 1
+                return tuple(a) + tuple(k[nm] for nm in nxt), {}
+            return a, k
         if pnames is None or n % 7 != 5 or not a or len(a) > len(pnames) or not AMB['on']:
             return a, k
         j = 1 + (n // 7) % len(a)
